@@ -512,6 +512,9 @@ class ExpRun:
 def gen_exp_case(r, tier):
     sc = zoo.gen_exp_scenario(r)
     sc["iface"] = "exp"
+    if sc["target"].get("kind") == "post_mapped" and "initial_point" in sc["knobs"] and r.random() < 0.5:
+        sc["knobs"].pop("ip_int", None)
+        sc["knobs"]["ip_funvals"] = True
     sc["W"] = r.choice([0, 0, 3, 7, 12])
     if sc["W"] and r.random() < 0.3:
         sc["tune_freq"] = r.choice([0.25, 0.5, 0.34])
